@@ -141,6 +141,26 @@ pub struct StreamsState {
     pub(super) streams_blocked: [bool; 2],
 }
 
+#[cfg(quinn_rs_quinn_verif)]
+impl StreamsState {
+    /// Read-only receive-accounting probe for the verification hooks:
+    /// `[data_recvd, local_max_data, receive_window, receive_window_shrink_debt, sent_max_data,
+    /// sent_max_remote[bi], sent_max_remote[uni], max_concurrent_remote_count[bi], [uni]]`
+    pub(super) fn verif_probe(&self) -> [i128; 9] {
+        [
+            self.data_recvd as i128,
+            self.local_max_data as i128,
+            self.receive_window as i128,
+            self.receive_window_shrink_debt as i128,
+            self.sent_max_data.into_inner() as i128,
+            self.sent_max_remote[0] as i128,
+            self.sent_max_remote[1] as i128,
+            self.max_concurrent_remote_count[0] as i128,
+            self.max_concurrent_remote_count[1] as i128,
+        ]
+    }
+}
+
 impl StreamsState {
     #[allow(unreachable_pub)] // fuzzing only
     pub fn new(
